@@ -523,7 +523,7 @@ class SymArray(numpy.ndarray):
         return f_dot(self, b)
 
     def argsort(self, axis=-1, kind=None, order=None, **kw):
-        return f_argsort(self, axis=axis)
+        return f_argsort(self, axis=axis, kind=kind)
 
     def sort(self, axis=-1, kind=None, order=None, **kw):
         ix = f_argsort(self, axis=axis)
@@ -1231,19 +1231,27 @@ def _cmp_cells(x, y):
     return 0
 
 
-def _stable_order(n, cmpfn):
+def _stable_order(n, cmpfn, stable=True):
+    """order of indices under cmpfn; ties keep the input order when stable, otherwise (numpy's default quicksort /
+    simd sort is not stable) each tie is resolved by a fresh arbitrary boolean, i.e. both orders are explored"""
     def cmp(i, j):
         c = cmpfn(i, j)
         if c != 0:
             return c
+        if not stable and sym._CTX[0] is not None:
+            ctx_ = sym.ctx()
+            t = z3.Bool("tie!%d" % ctx_.fresh())
+            ctx_.nondet = True     # the real library's choice on this path is unspecified: no output comparison in validation
+            return -1 if bool(SV(t)) else 1
         return (i > j) - (i < j)
     return sorted(range(n), key=functools.cmp_to_key(cmp))
 
 
-def f_argsort(a, axis=-1, **kw):
+def f_argsort(a, axis=-1, kind=None, **kw):
     a = _sa(a)
+    stable = kind in ("stable", "mergesort")
     if a.is_concrete() and a._vd != _OBJ:
-        return numpy.argsort(unbox(a), axis=axis, kind="stable")
+        return numpy.argsort(unbox(a), axis=axis, kind=kind)
     r = raw(a)
     if axis is None:
         r = r.ravel()
@@ -1252,7 +1260,7 @@ def f_argsort(a, axis=-1, **kw):
     out = numpy.empty(moved.shape, dtype=numpy.intp)
     for ix in numpy.ndindex(*moved.shape[:-1]):
         v = list(moved[ix])
-        out[ix] = _stable_order(len(v), lambda i, j: _cmp_cells(v[i], v[j]))
+        out[ix] = _stable_order(len(v), lambda i, j: _cmp_cells(v[i], v[j]), stable=stable)
     return numpy.moveaxis(out, -1, axis)
 
 
